@@ -44,9 +44,10 @@ fn main() {
          other type, extra second question, one letter case-flipped, 7 garbage bytes from the right source, reply truncated \
          after 14 bytes from the right source, garbage from a wrong source, recv error, empty question section, QR=0 echo of \
          the query} u {wait for the next retransmission}; silence until retry / until the 5 s timeout = end of an epoch / of \
-         the sequence. Family 'latest-socket': all sequences of length <= 4 (thorough 5) addressed to the newest transmission's \
-         socket; family 'any-socket': all sequences of length <= 3 (thorough 4) in which datagrams may also be late replies to \
-         the previous two transmissions, each additionally with the datagram arriving in the very instant of the retry timer \
+         the sequence. Every datagram is addressed to the socket of the newest transmission or, as a late reply, to one of the \
+         two previous sockets (3 x 16 + 1 = 49 symbols). ALL sequences of length <= 4 (thorough 5) over the 49 symbols (run as \
+         family 'latest-socket' = newest socket only, plus family 'any-socket' = the rest); every sequence in which a late reply \
+         directly follows a wait is additionally run with that datagram arriving in the very instant of the retry timer \
          (tie family, both select! outcomes accepted). All x case randomisation on/off; genuine present/absent arises from the \
          alphabet. Datagrams are built from the transmitted bytes (id, 0x20 case). Monitor: Ok(bytes) only for a scripted datagram \
          from the queried ip:port with the transmitted id whose questions were all asked (byte-identical case under \
@@ -56,12 +57,13 @@ fn main() {
          no panic. (b) stream, real DnsMultiplexer over a scripted DnsClientStream with hand-fired timeout futures, manual polls: \
          BFS with state matching over events send / deliver(response with the id of request i, live or already removed) / \
          byte-identical duplicate / unknown id / undecodable (3 bytes; header with a live id + cut question) / drop receiver i / \
-         timer i fires / stream error / stream end / poll, k <= 2 requests depth 8 (thorough k <= 3, depth 10), \
-         max_active_requests in {32, k-1}, at most qmax unread inbound messages. Reference routing table keyed by the ids seen \
+         timer i fires / stream error / stream end / poll, k <= 3 requests, depth 9 (thorough 12), \
+         max_active_requests in {32, 2, 1}, at most qmax = 3 (thorough up to 5) unread inbound messages. Reference routing table keyed by the ids seen \
          on the wire: each response read while a request with its id is pending appears exactly once, in order, on that \
          request's receiver and nowhere else; ids of pending requests pairwise distinct; unknown/undecodable/late messages \
          change nothing; after stream error/end every pending request's receiver yields an error and no request stays pending \
-         on a closed connection; no panic. states/transitions/traces_validated_against_impl are sums over both parts: \
+         on a closed connection; a request is refused with Busy only while max_active_requests requests are pending \
+         (timed-out, cancelled and failed ones are removed); no panic. states/transitions/traces_validated_against_impl are sums over both parts: \
          (b) BFS states and transitions (every transition = one replay of the history on a fresh real multiplexer compared \
          with the reference) + (a) schedules consumed to their end (distinct environment histories reached) / datagrams consumed \
          / schedules executed. Non-trivial = (a) schedules in which a non-matching datagram was consumed before the genuine \
